@@ -10,6 +10,8 @@ mod unary_operator;
 pub mod variable;
 #[cfg(feature = "verif")]
 pub mod verif;
+#[cfg(feature = "verif-loom")]
+mod verif_loom;
 pub use simplesl_macros::{var, var_type};
 use std::fmt::{Debug, Display};
 pub use {
